@@ -315,6 +315,46 @@ def reply_peer_maximum(mi: int, a0: bool, a1: bool, t0: int) -> bool:
     return ok
 
 
+@cond(bounds='the SAME SOP class configured twice (as SCU by add_scu and as SCP by add_scp, next to a second SCU class): it is '
+             'proposed on two contexts; the peer\'s result for each of the three contexts is symbolic over 0..4 and its '
+             'result items come in any of the 6 orders (symbolic): usable contexts are exactly the accepted ones, and a '
+             'service for the class can be obtained iff at least one of ITS contexts was accepted - bound to one of '
+             'those', timeout=300)
+def reply_same_class_twice(r0: int, r1: int, r2: int, perm: int, t0: int) -> bool:
+    """
+    pre: 0 <= r0 <= 4 and 0 <= r1 <= 4 and 0 <= r2 <= 4 and 0 <= perm <= 5 and 0 <= t0 <= 1
+    post: _
+    """
+    ae = new_ae('LOCAL_AE', TSU[:2], 16384)
+    c1, c2 = POOL[0], POOL[1]
+    s_scu, s_scp, s_other = Svc('as_scu'), Svc('as_scp'), Svc('other')
+    ae.add_scu(s_scu, [c1])
+    s_scp.sop_classes = [c1]
+    ae.add_scp(s_scp)
+    ae.add_scu(s_other, [c2])
+    results = (pick(r0, 0, 4), pick(r1, 0, 4), pick(r2, 0, 4))
+    tsi = (pick(t0, 0, 1), 1 - pick(t0, 0, 1), 0)
+    order = list(itertools.permutations(range(3)))[pick(perm, 0, 5)]
+    rqr, rq = run_request(ae, 16384, results, tsi, order)
+    ctxs = rq.variable_items[1:-1]
+    ok = len(ctxs) == 3 and [str(i.abs_sub_item.name) for i in ctxs] == [c1, c1, c2] \
+        and len(set(i.context_id for i in ctxs)) == 3
+    if not ok:
+        return False
+    accepted = [i.context_id for i, r in zip(ctxs, results) if r == 0]
+    ok = sorted(rqr.accepted_contexts) == sorted(accepted)
+    for cls, ids in ((c1, [ctxs[0].context_id, ctxs[1].context_id]), (c2, [ctxs[2].context_id])):
+        good = [i for i in ids if i in accepted]
+        try:
+            name, asce, ctx, a = rqr.get_scu(cls)('x')
+            ok = ok and bool(good) and ctx.id in good and str(ctx.sop_class) == cls \
+                and str(ctx.supported_ts) == TSU[tsi[[i.context_id for i in ctxs].index(ctx.id)]]
+        except exceptions.ClassNotSupportedError:
+            ok = ok and not good
+    deep(ok and r0 == 0 and r1 == 3 and perm == 0)
+    return ok
+
+
 def proposal_per_class_ok(rq, want):
     """want: list of (sop class, sorted transfer syntaxes) in configuration order"""
     items = rq.variable_items[1:-1]
